@@ -3,6 +3,7 @@
 From Coq Require Import List ZArith Bool Permutation.
 From Coq Require Import QArith.
 From PV Require Import lib.Sx lib.Str lib.Result model.SccLen model.SccStash model.SccDecoder spec.SpecSccLen proofs.SccLenFacts proofs.SccReadLenFacts proofs.SccLenLooseFacts.
+From PV Require Import model.SccTime model.SccPopon spec.SpecScc05 proofs.SccPoponStage1 proofs.SccPoponStage3 proofs.SccOrderFacts proofs.SccOrderLongFacts.
 Import ListNotations.
 Open Scope Z_scope.
 
@@ -75,6 +76,72 @@ Theorem C15_length_overwrite_refuted :
   Permutation wit_a wit_b /\ is_some (length_check_prefix wit_b) = true.
 Proof. exact length_overwrite_refuted. Qed.
 Print Assumptions C15_length_overwrite_refuted.
+
+(* the order clause at the level of the STREAM, on the whole decoder model, inside the domain of the pop-on refinement
+   (load_wf: every row within 32 cells): two transmissions of a load that differ only in the order of its rows - they share
+   a start time - are both read without the line-length error (same End-Of-Caption instant) and each satisfies the screen
+   oracle of its own row order. For a load with an over-long row the staged simulation does not apply: there the order
+   clause remains a correspondence obligation (the harness executes every order). *)
+Theorem C15_popon_row_order_free : forall d l l' off tc tc2 t1 t2, Permutation l l' -> load_wf l = true ->
+  get_time tc (Z.of_nat (length (emit_load d l)) - (if d then 2 else 1)) off = Ok t1 ->
+  get_time tc2 0 off = Ok t2 -> (0 < t1)%Q -> (t1 < t2)%Q -> is_flash (mkPre t1 t2 [] None) = false ->
+  exists caps caps',
+    read off [(tc, emit_load d l); (tc2, emit_clear d)] = ROk caps /\
+    read off [(tc, emit_load d l'); (tc2, emit_clear d)] = ROk caps' /\
+    ok_c05 (mkProg d [l]) (Ok (map observe caps)) = true /\
+    ok_c05 (mkProg d [l']) (Ok (map observe caps')) = true.
+Proof. exact popon_row_order_free. Qed.
+Print Assumptions C15_popon_row_order_free.
+Example C15_popon_row_order_free_instance :
+  exists caps caps',
+    read 0 [(lit "00:00:01;00", emit_load true ord_a); (lit "00:00:05;00", emit_clear true)] = ROk caps /\
+    read 0 [(lit "00:00:01;00", emit_load true ord_b); (lit "00:00:05;00", emit_clear true)] = ROk caps' /\
+    ok_c05 (mkProg true [ord_a]) (Ok (map observe caps)) = true /\
+    ok_c05 (mkProg true [ord_b]) (Ok (map observe caps')) = true.
+Proof. exact popon_row_order_free_instance. Qed.
+
+(* ... and WITH over-long rows, for the simplest shape of "captions sharing a start time": a pop-on load of plain rows
+   (plain_load: column 0, no style, non-empty runs of visible basic characters of ANY length, row numbers pairwise at least
+   two apart, so every row is its own caption), codes single or doubled. The whole decoder model raises the line-length
+   error iff some row has more than 32 characters, whatever the order of the rows; the message names every over-long row;
+   and the outcome depends only on the multiset of row lengths (different texts, rows, orders, timecodes, offsets). *)
+Theorem C15_plain_load_outcome : forall d l off tc tc2 t1 t2, plain_load l = true ->
+  get_time tc (Z.of_nat (length (emit_load d l)) - (if d then 2 else 1)) off = Ok t1 ->
+  get_time tc2 0 off = Ok t2 -> (0 < t1)%Q -> (t1 < t2)%Q -> is_flash (mkPre t1 t2 [] None) = false ->
+  let res := read off [(tc, emit_load d l); (tc2, emit_clear d)] in
+  (existsb long_row l = false -> res = ROk (map (capL t1 t2) l)) /\
+  (existsb long_row l = true ->
+     exists msg, res = RLen msg /\
+       forall r, In r l -> long_row r = true -> names msg (row_text r) = true /\ mentions msg (row_text r) = true).
+Proof. exact plain_load_outcome. Qed.
+Print Assumptions C15_plain_load_outcome.
+Theorem C15_plain_load_order_free : forall d l l' off tc tc2 t1 t2, Permutation l l' -> plain_load l = true ->
+  get_time tc (Z.of_nat (length (emit_load d l)) - (if d then 2 else 1)) off = Ok t1 ->
+  get_time tc2 0 off = Ok t2 -> (0 < t1)%Q -> (t1 < t2)%Q -> is_flash (mkPre t1 t2 [] None) = false ->
+  let res := read off [(tc, emit_load d l); (tc2, emit_clear d)] in
+  let res' := read off [(tc, emit_load d l'); (tc2, emit_clear d)] in
+  (raises res <-> raises res') /\ (returns res <-> returns res') /\
+  (raises res <-> existsb long_row l = true) /\ (returns res <-> existsb long_row l = false).
+Proof. exact plain_load_order_free. Qed.
+Print Assumptions C15_plain_load_order_free.
+Theorem C15_plain_load_lengths_only : forall d d' l l' off off' tc tc' tc2 tc2' t1 t2 t1' t2',
+  plain_load l = true -> plain_load l' = true -> Permutation (row_lengths l) (row_lengths l') ->
+  get_time tc (Z.of_nat (length (emit_load d l)) - (if d then 2 else 1)) off = Ok t1 ->
+  get_time tc2 0 off = Ok t2 -> (0 < t1)%Q -> (t1 < t2)%Q -> is_flash (mkPre t1 t2 [] None) = false ->
+  get_time tc' (Z.of_nat (length (emit_load d' l')) - (if d' then 2 else 1)) off' = Ok t1' ->
+  get_time tc2' 0 off' = Ok t2' -> (0 < t1')%Q -> (t1' < t2')%Q -> is_flash (mkPre t1' t2' [] None) = false ->
+  let res := read off [(tc, emit_load d l); (tc2, emit_clear d)] in
+  let res' := read off' [(tc', emit_load d' l'); (tc2', emit_clear d')] in
+  (raises res <-> raises res') /\ (returns res <-> returns res').
+Proof. exact plain_load_lengths_only. Qed.
+Print Assumptions C15_plain_load_lengths_only.
+(* non-vacuity: a 34-character row on row 15 and "bc" on row 3, in both orders: both raise and name the long row *)
+Example C15_long_order_instance :
+  (exists m, read 0 [(lit "00:00:01;00", emit_load true long_a); (lit "00:00:05;00", emit_clear true)] = RLen m /\
+             mentions m (repeat 97 34) = true) /\
+  (exists m, read 0 [(lit "00:00:01;00", emit_load true long_b); (lit "00:00:05;00", emit_clear true)] = RLen m /\
+             mentions m (repeat 97 34) = true).
+Proof. exact long_order_instance. Qed.
 
 (* non-vacuity of C15_read_never_silent: read yields both outcomes on concrete streams *)
 Example C15_read_raises : exists m, read 0 (row_stream 17) = RLen m.
